@@ -274,12 +274,23 @@ pub fn boundary_case(rng: &mut Rng, forced: Option<(u64, i64)>) -> (ModSpec, Str
                     ("import:unknown-name".into(), Some(false))
                 }
                 3 => {
-                    m.imports.push(format!("(import \"env\" \"{}\" (func {} ))", h.name, h.wat_sig().replacen("(result", "(param i32) (result", 1).replace("(param i32 ", "(param i64 ")));
-                    // guarantee a different signature
-                    if m.imports.last().unwrap().contains(&format!("(func {} )", h.wat_sig())) {
-                        *m.imports.last_mut().unwrap() = format!("(import \"env\" \"{}\" (func (param i64 i64 i64) (result i32)))", h.name);
-                    }
-                    ("import:wrong-signature".into(), Some(false))
+                    // exactly one deviation from the documented signature
+                    let n = h.n_slots();
+                    let params = |k: usize, t: &str| if k == 0 { String::new() } else { format!("(param{})", format!(" {t}").repeat(k)) };
+                    let res = |c: char| match c {
+                        'L' => " (result i64)",
+                        'I' => " (result i32)",
+                        _ => "",
+                    };
+                    let (sig, what) = match rng.below(5) {
+                        0 => (format!("{}{}", params(n + 1, "i32"), res(h.result)), "extra-param"),
+                        1 if n > 0 => (format!("{}{}", params(n - 1, "i32"), res(h.result)), "missing-param"),
+                        2 if n > 0 => (format!("(param{} i64){}", " i32".repeat(n - 1), res(h.result)), "i64-param"),
+                        3 => (format!("{}{}", params(n, "i32"), res(match h.result { 'L' => 'I', 'I' => 'L', _ => 'I' })), "other-result-type"),
+                        _ => (format!("{}{}", params(n, "i32"), res(if h.result == 'V' { 'L' } else { 'V' })), "result-added-or-dropped"),
+                    };
+                    m.imports.push(format!("(import \"env\" \"{}\" (func {sig}))", h.name));
+                    (format!("import:wrong-signature:{what}"), Some(false))
                 }
                 4 => {
                     m.imports.push("(import \"env\" \"gas\" (func (param i64)))".into());
@@ -414,7 +425,7 @@ fn error_variant(e: &PrepareError) -> String {
     v
 }
 
-fn mvp_features() -> WasmFeatures {
+pub fn mvp_features() -> WasmFeatures {
     WasmFeatures {
         mutable_global: true,
         saturating_float_to_int: false,
